@@ -6,7 +6,7 @@
 EXTENDS Integers, FiniteSets, TLC, Json
 Uppers == {"udp", "icmp", "tcp"}
 Addrs == {"ll-ext", "ll-short", "global"}         \* link-local from the EUI-64, link-local from a short address, fd00::/64
-Ports == {"both4", "one8", "none"}                 \* both in 0xf0b0..0xf0bf, one in 0xf000..0xf0ff, neither
+Ports == {"both4", "one8", "dst8", "none"}         \* both in 0xf0b0..0xf0bf; source / destination alone in 0xf000..0xf0ff; neither
 Sizes == {0, 1, 40, 80, 120, 300, 700, 1100}
 Hops == {1, 64, 255, 17}
 Orders == {"inorder", "reverse", "dup-first", "swap-tail", "drop-one"}
